@@ -40,6 +40,8 @@ def sig_of(r):
         return "window:roll-sum-update-differs-from-FeeMarket"
     tags, _, _ = _c13rows.classify(r)
     d = "up" if "up" in tags else "down" if "down" in tags else "equal"
+    if "window-sum-overflows-before-the-last-slot" in tags:
+        return "next-price:%s:window-sum-overflows-before-the-last-slot" % d
     if "intermediate-quotient-beyond-64-bits-result-fits" in tags:
         return "next-price:%s:intermediate-quotient-beyond-64-bits-result-fits" % d
     if "product-beyond-64-bits" in tags:
@@ -192,7 +194,10 @@ def run(ctx):
                                   r.get("target"), r.get("denom"), r.get("min"), r.get("lastSec"), r.get("nowMs"),
                                   r.get("next"), sorted(_c13rows.classify(r)[0]) if "w" in r else "?"))
     vlib.report_failures(ctx, fails, describe)
-    ctx.cov["rule"] = ("rows = (ComputeNext call, dimension) on chains of 1-4 blocks from seeded states: 25% small-valued, 75% "
+    ctx.cov["rule"] = ("hand-picked families (lead, boundary times, intermediate quotient beyond 64 bits, window sum overflowing at "
+                       "every slot position, a 7/12-block history whose near-2^64 slot wanders through the window) and direct "
+                       "window.Roll/Sum/Update/Last rows with near-max slots at every position, plus seeded "
+                       "rows = (ComputeNext call, dimension) on chains of 1-4 blocks from seeded states: 25% small-valued, 75% "
                        "values of random bit length 0..64 / boundary values (0, 1, 2^32+-1, 2^63+-1, 2^64-1..3), elapsed seconds "
                        "in {0..39, 100, 1000, 2^20, 10*2^32, 2^40, 2^50} and time going backwards, consumption set through "
                        "SetLastConsumed; a row is non-trivial when the price moves and the price*delta product exceeds 64 bits, "
